@@ -272,6 +272,8 @@ def final_sigma(ex, b, law_syms):
         if k in sigma and sigma[k] != v and sigma[k].is_Symbol:
             conflicts.append((str(k), str(sigma[k]), str(v)))
             sigma[k] = v
+        elif k not in sigma and (ex.laws_by_default or not b.subs_log):
+            sigma[k] = v
     return sigma, multi, conflicts
 
 
